@@ -102,10 +102,13 @@ fn run_rustfmt(files: &HashSet<String>, ranges: &[Range]) -> Result<(), FormatDi
         Some(rustfmt) => rustfmt,
         None => OsStr::new("rustfmt"),
     };
+    // The files go behind a `--`: a path of the patch that begins with a dash (`-x.rs`, a stray
+    // `--check`) is a file to format, not an option of rustfmt.
     let exit_status = process::Command::new(rustfmt)
-        .args(files)
         .arg("--file-lines")
         .arg(ranges_as_json)
+        .arg("--")
+        .args(files)
         .status()?;
 
     if !exit_status.success() {
